@@ -888,6 +888,8 @@ def judge(case, model, res):
         if rc == 0:
             return "VIOLATION", "reference evaluation ends with BASIC error (%s) but the run reported no error" % m0["msg"]
         return "ok", "error on both sides"
+    if host in ("put", "rate") and m0["save"] is not None and math.isnan(m0["save"]):
+        m0 = dict(m0, save=None)        # NaN is the implementation's "nothing SAVEd" sentinel (rate_moles = NAN before the run)
     if host in ("put", "rate") and m0["save"] is None:
         return ("ok", "error on both sides") if rc != 0 else ("VIOLATION", "nothing was SAVEd but the run reported no error")
     if rc != 0:
